@@ -478,4 +478,7 @@ class PC(StructureEstimator):
                 undirected_edges.append((u, v))
             else:
                 directed_edges.append((u, v))
-        return PDAG(directed_ebunch=directed_edges, undirected_ebunch=undirected_edges)
+        pdag = PDAG(directed_ebunch=directed_edges, undirected_ebunch=undirected_edges)
+        # Nodes without any edge in the skeleton are part of the result as well.
+        pdag.add_nodes_from(skeleton.nodes())
+        return pdag
